@@ -14,6 +14,12 @@ CHECKS = {
         "text": "Every binary operator over all 64x64 posting-list alignments of a 6-document universe corpus with 1-3 postings per block (so block skipping and matcher replacement engage, which is measured), 3-leaf/nested/boosted/special-leaf trees over 12 representative alignments, k=1..5, eight weighting configurations, filter/mask/collapse/terms variants: the limited search must equal the prefix of the unlimited one. Complete within those bounds.",
         "note": "Trusted: search(limit=None) as the reference ranking (its own correctness is C01/C09), float tolerance 1e-9. Bounds: 6 documents, depth<=2.",
     },
+    "C08": {
+        "engine": "E1", "level": "exploration",
+        "technique": "bounded-exhaustive enumeration of value alphabets x presence patterns x segment layouts x storage configurations, and of column types x row counts around internal thresholds x sparse patterns, on the real code against a Python list/dict model",
+        "text": "Index level: 11 field families (every shipped stored/sortable type, the _stored_ override, all column types) x all 16 presence patterns over 4 documents x all 8 segment compositions x {plain, optimize, merge, delete+optimize} x {RAM, mmap, no mmap} x {compound, loose} incl. copy_to_ram; column level: 35 column configurations x 3 back-ends, every assignment to <=3-4 rows, 255/256/257 rows x sparse patterns, RefBytes around 65536 distinct values, VarBytes offsets/retyping through forced small cutoffs and 32K/64K/70KB values. Every stored value, column value, default and Hit fallback must equal the model.",
+        "note": "Trusted: the Python list/dict model; documents identified by an indexed unique key. Offsets above 2^31 are out of bound.",
+    },
     "C10": {
         "engine": "E1", "level": "exploration",
         "technique": "bounded-exhaustive enumeration of token streams x posting formats x block sizes x compression x inlining x codecs x write paths on the real code, against a plain-Python token model",
@@ -25,6 +31,12 @@ CHECKS = {
         "technique": "explicit-state BFS over matcher call programs on real matcher objects with state hashing (digest of the real object graph + model position), against a list model",
         "text": "For every matcher built from the C01 query families over U(2..4) (scored and boolean contexts, with deletions, multi-segment MultiMatcher leaves) and directly constructed array/preloaded/filter/inverse/wrapping/list/span matchers: all call programs over {next, skip_to(t), skip_to_quality(0), replace(), copy, copy+advance, reset} up to depth 4 (thorough 6) are explored breadth-first with deduplication; in every state the cursor must sit at the model position and read what a fresh next()-only traversal read there; the list must equal the reference evaluator's result.",
         "note": "Trusted: the object's own fresh next()-only traversal as list model (cross-checked against mc/qast.py), the generic state digest. Only calls whose documented precondition holds are made.",
+    },
+    "C13": {
+        "engine": "E1", "level": "exploration",
+        "technique": "exhaustive enumeration of 8-bit numeric domains (all values, all start<=end pairs, all shift steps) and boundary-alphabet exhaustive enumeration for wider types, on the real code against Python comparison",
+        "text": "8-bit signed/unsigned: sortable encoding is a strictly monotone bijection; split_ranges tiles [start,end] exactly for every pair and step; tiered_ranges for every (start,end,excl,excl) incl. None; NumericRange on real indexes holding every value (and one with holes). 16/32/64-bit ints, float, Decimal, DATETIME: every ordered pair of 37-53 boundary values x 4 exclusivity combinations on an index holding the alphabet, round trips, sort order; out-of-domain values must be rejected in five contexts.",
+        "note": "Trusted: Python's own comparison on the original values. Wider types are covered through boundary alphabets only.",
     },
     "C14": {
         "engine": "E1", "level": "exploration",
@@ -43,6 +55,12 @@ CHECKS = {
         "technique": "bounded-exhaustive enumeration of token strings x parser configurations (totality) and of expression trees x renderings x configurations against the reference evaluator on an all-contents corpus (meaning)",
         "text": "Totality: every string of <=3 tokens over a 42-token grammar-aware alphabet, 4-5 tokens over reduced alphabets, and range templates on every field type, through 8 parser configurations; parse() may only return a Query or raise QueryParserError and the result searched on three indexes may only raise QueryError. Meaning: every expression tree up to 4 leaves over the documented constructs, three parenthesisation styles, 4 configurations: matched documents equal the reference reading (NOT > AND > OR > binary operators > implicit grouping).",
         "note": "Trusted: mc/qast.py reference evaluator; undocumented constructs (unparenthesised mixing of ANDNOT/ANDMAYBE/REQUIRE, *:*) are not generated.",
+    },
+    "C19": {
+        "engine": "E1", "level": "exploration",
+        "technique": "bounded-exhaustive enumeration of lexicons x query words x distances x prefixes x segment layouts on the real code, against independent edit-distance references",
+        "text": "Every subset of the 6 words of length <=2 over 2 letters, the full lexicons of all words of length <=4 over 3 letters and over a multi-byte alphabet, every query word of length <=5 (incl. empty), maxdist 0..3, prefix 0..4 (incl. longer than the word), one-segment (automaton) and multi-segment (brute force) readers: terms_within, FuzzyTerm, suggest and correct_query against reference distances; results must also agree across layouts.",
+        "note": "Trusted: the reference distances in mc/qast.py and mc/checks/c19.py. Where restricted and unrestricted Damerau-Levenshtein differ only cross-layout equality is demanded.",
     },
     "C20": {
         "engine": "E4", "level": "model_checking",
